@@ -11,6 +11,15 @@ From OPF Require Import Model.Consts Model.Effects Spec.MetricSpec Gen.Consts_ge
 Import ListNotations.
 Open Scope R_scope.
 
+Lemma sqrt_Rmax_0 (a : R) : sqrt (Rmax a 0) = sqrt a.
+Proof.
+  unfold Rmax. destruct (Rle_dec a 0) as [Hle|Hgt]; [|reflexivity].
+  rewrite sqrt_0. symmetry. apply sqrt_neg_0; exact Hle.
+Qed.
+
+Lemma sqrt_Rmax_0' (a : R) : sqrt (Rmax 0 a) = sqrt a.
+Proof. rewrite Rmax_comm. apply sqrt_Rmax_0. Qed.
+
 Ltac cf_open m :=
   unfold metric_value, metric_value_with, evalR_wrapped, evalR_wrapped_with, wrap, m;
   cbn [m_avoid_zero]; rewrite ?dec_ok; cbv beta iota; cf_eval.
@@ -72,7 +81,10 @@ Qed.
 Lemma closed_form_chord x y :
   length x = length y -> metric_value ir_chord x y = sp_chord (shift x) (shift y).
 Proof.
-  cf_dec ir_chord H HXY. cf_close HXY.
+  cf_dec ir_chord H HXY.
+  (* the code clamps the radicand at 0; over R, [sqrt] of a negative number is 0 anyway *)
+  rewrite ?sqrt_Rmax_0, ?sqrt_Rmax_0'.
+  cf_close HXY.
 Qed.
 
 Lemma closed_form_clark x y :
